@@ -237,6 +237,148 @@ def cuda_vs_dense(net, label, rng):
     return out
 
 
+def library_matrix_case(i):
+    """The matrix the generated LIBRARY hands to the integrator (created by Naunet::Init, created again by
+    Naunet::Reset), filled by the routine the library registers as Jacobian, and read back the way its declared
+    storage type says (dense, CSR or CSC): the entries must be the ones the dense back-end's Jac gives for the same
+    state.  The integrator is a stand-in whose CVode() only asks the registered routine to fill the registered matrix."""
+    import shutil
+    import struct
+    import subprocess
+    import tempfile
+    from pathlib import Path
+
+    from ..core.runner import VERIF
+    from ..ctext.stmts import read_macros
+    from ..harness import oderun as OR
+    from ..harness.cxx import GXX, SHIM, run as runcmd
+    from ..harness.ratesrun import data_fields
+    from ..harness.render import render, reset_globals, quiet, scratch
+
+    reset_globals()
+    from naunet.network import Network
+    from naunet.reactions.reaction import Reaction
+    from naunet.reactiontype import ReactionType
+
+    def build():
+        reacs = [
+            Reaction(["H", "e-"], ["H+", "e-", "e-"], 1.0, 1e9, 1e-10, 0.5, 15.0, ReactionType.GAS_TWOBODY, 1),
+            Reaction(["H+", "e-"], ["H"], 1.0, 1e9, 3e-12, -0.75, 0.0, ReactionType.GAS_TWOBODY, 2),
+            Reaction(["H2", "CR"], ["H", "H"], -1.0, -1.0, 0.5, 0.0, 0.0, ReactionType.GAS_COSMICRAY, 3),
+        ]
+        return Network(reacs, cooling=[[], ["CIC_HI"]][i], required_species=["H", "e-", "H+", "H2"])
+
+    viols = []
+    n = 0
+    with quiet():
+        fd = render(build(), "dense", OR.TEMPLATES_CVODE)
+    mac = read_macros(fd["include/naunet_macros.h"])
+    neq = mac.value("NEQUATIONS")
+    yv = [0.5 + ((7 * k + 3) % 11) / 8.0 for k in range(neq)]
+    if "IDX_TGAS" in mac.text:
+        yv[mac.value("IDX_TGAS")] = 8.0e3
+    prm = {"nH": 3e5, "Tgas": 220.0, "zeta": 5e-16, "Av": 1.0, "omega": 0.5, "mu": 1.3, "gamma": 1.6}
+    rd = OR.build_and_run(fd, "dense", [yv], [prm])
+    if "error" in rd:
+        raise HarnessError(f"library_matrix_case: dense reference: {rd['detail'][:200]}")
+    ref = rd["runs"][0]["jac"]
+    for backend in ("dense", "sparse"):
+        with quiet():
+            files = render(build(), backend, None)
+        fields = data_fields(files)
+        d = Path(tempfile.mkdtemp(dir=scratch()))
+        try:
+            for rel, text in files.items():
+                p_ = d / rel
+                p_.parent.mkdir(parents=True, exist_ok=True)
+                p_.write_text(text)
+            assign = "\n".join(f"    d.{f} = {prm[f]!r};" for f, _ in fields if f in prm)
+            ytxt = ", ".join(repr(v) for v in yv)
+            (d / "driver.cpp").write_text(f"""
+#include <stdio.h>
+#include "naunet.h"
+#include <sunmatrix/sunmatrix_dense.h>
+#include <sunmatrix/sunmatrix_sparse.h>
+extern SUNMatrix verif_cv_matrix; extern int verif_cv_jac_ret;
+char *verif_log_buf = NULL; size_t verif_log_len = 0;
+static void dump(FILE *o) {{
+    SUNMatrix A = verif_cv_matrix;
+    double J[NEQUATIONS][NEQUATIONS];
+    for (int r = 0; r < NEQUATIONS; r++) for (int c = 0; c < NEQUATIONS; c++) J[r][c] = 0.0;
+    double kind = -1.0;
+    if (A && A->kind == VERIF_MAT_SPARSE) {{
+        kind = A->sparsetype == CSR_MAT ? 1.0 : 2.0;
+        for (int p = 0; p < A->NP; p++) for (sunindextype q = A->indexptrs[p]; q < A->indexptrs[p + 1]; q++) {{
+            int r = A->sparsetype == CSR_MAT ? p : (int)A->indexvals[q], c = A->sparsetype == CSR_MAT ? (int)A->indexvals[q] : p;
+            if (r >= 0 && r < NEQUATIONS && c >= 0 && c < NEQUATIONS) J[r][c] = A->data[q]; else kind = -2.0;
+        }}
+    }} else if (A) {{
+        kind = 0.0;
+        for (int r = 0; r < NEQUATIONS; r++) for (int c = 0; c < NEQUATIONS; c++) J[r][c] = SM_ELEMENT_D(A, r, c);
+    }}
+    double head[4] = {{ kind, A ? (double)A->M : -1.0, A ? (double)A->N : -1.0, (double)verif_cv_jac_ret }};
+    fwrite(head, sizeof(double), 4, o);
+    fwrite(J, sizeof(double), NEQUATIONS * NEQUATIONS, o);
+}}
+int main() {{
+    FILE *o = fopen("out.bin", "wb");
+    Naunet n; NaunetData d;
+{assign}
+    double y0[NEQUATIONS] = {{ {ytxt} }}, y[NEQUATIONS];
+    if (n.Init(1, 1e-20, 1e-5, 500) != NAUNET_SUCCESS) return 3;
+    for (int i = 0; i < NEQUATIONS; i++) y[i] = y0[i];
+    if (n.Solve(y, 1.0, &d) != NAUNET_SUCCESS) return 4;
+    dump(o);
+    if (n.Reset(1, 1e-18, 1e-4, 300) != NAUNET_SUCCESS) return 5;
+    for (int i = 0; i < NEQUATIONS; i++) y[i] = y0[i];
+    if (n.Solve(y, 1.0, &d) != NAUNET_SUCCESS) return 6;
+    dump(o);
+    n.Finalize();
+    fclose(o);
+    return 0;
+}}
+""")
+            srcs = sorted(str(x.relative_to(d)) for x in (d / "src").glob("*.cpp"))
+            cmd = [GXX, "-std=c++17", "-w", "-O0", "-g", "-fsanitize=address,undefined", "-fno-sanitize-recover=all", "-I", str(SHIM), "-I", "include", *srcs, str(VERIF / "cxx" / "stub_cvode.cpp"), "driver.cpp", "-o", "drv", "-lm"]
+            rc, so, se = runcmd(cmd, cwd=str(d), timeout=600)
+            case = {"library_matrix": i, "backend": backend}
+            if rc != 0:
+                first = next((ln for ln in se.splitlines() if "error" in ln), se[:200])
+                raise HarnessError(f"library_matrix_case({backend}): {first[:300]}")
+            pr = subprocess.run(["./drv"], cwd=str(d), capture_output=True, timeout=300, env={"ASAN_OPTIONS": "detect_leaks=0"})
+            if pr.returncode != 0:
+                err = pr.stderr.decode(errors="replace")
+                head = next((ln for ln in err.splitlines() if "ERROR: AddressSanitizer" in ln or "runtime error" in ln), f"exit {pr.returncode}")
+                viols.append((f"C03:library-matrix:{backend}:run", f"{backend}: Init / Solve / Reset / Solve of the generated library with a stand-in integrator: {head[:300]}", case))
+                continue
+            raw = (d / "out.bin").read_bytes()
+            vals = struct.unpack(f"<{len(raw)//8}d", raw)
+            per = 4 + neq * neq
+            for stage, off in (("Init", 0), ("Reset", per)):
+                n += 1
+                kind, M, N, jret = vals[off : off + 4]
+                J = vals[off + 4 : off + per]
+                want_kind = 0.0 if backend == "dense" else 1.0
+                if (M, N) != (float(neq), float(neq)) or kind < 0:
+                    viols.append((f"C03:library-matrix:{backend}:shape:{stage}", f"{backend}: the matrix {stage} gives the integrator is {M:g} x {N:g} (kind {kind:g}), NEQUATIONS = {neq}", case))
+                    continue
+                bad = None
+                for r in range(neq):
+                    for c in range(neq):
+                        x, y_ = ref.get((r, c), 0.0), J[r * neq + c]
+                        if not _close(x, y_):
+                            bad = (r, c, x, y_)
+                            break
+                    if bad:
+                        break
+                if bad:
+                    how = {0.0: "dense", 1.0: "CSR", 2.0: "CSC (compressed sparse COLUMN)"}[kind]
+                    viols.append((f"C03:library-matrix:{backend}:{'storage-type' if kind != want_kind else 'entries'}:{stage}", f"{backend}: the matrix created by {stage}, filled by the registered Jacobian routine and read as its declared storage type ({how}) has J[{bad[0]}][{bad[1]}] = {bad[3]!r}; the dense back-end gives {bad[2]!r}", case))
+        finally:
+            shutil.rmtree(d, ignore_errors=True)
+    return n, viols
+
+
 def cuda_fixed_case(i):
     """networks whose rate coefficients depend on the per-system user data (temperature law, cosmic-ray rate), with
     and without the thermal equation: the batch members differ in Tgas, nH and zeta, so a kernel that mixes up the
@@ -311,10 +453,15 @@ def run(ctx):
     for k, viols in ctx.pmap(cuda_fixed_case, [0, 1, 2]):
         ncuda += k
         ctx.absorb(viols)
+    nlib = 0
+    for k, viols in ctx.pmap(library_matrix_case, [0, 1]):
+        nlib += k
+        ctx.absorb(viols)
     for nv, viols in ctx.pmap(conformance_case, work):
         nconf += nv
         ctx.absorb(viols)
     ctx.assumptions += [
+        "library objects: the matrix Naunet::Init and Naunet::Reset hand to the integrator (stand-in CVODE that only asks the registered Jacobian routine to fill the registered matrix) is read back according to its declared storage type and compared with the dense back-end's Jac on the same state (dense and sparse methods, with and without the thermal equation)",
         "bounds are judged against the sizes the generated headers declare (NEQUATIONS, NREACTIONS, NNZ, NHEATPROCS, NCOOLPROCS) as evaluated from the rendered naunet_macros.h",
         "every subscript in Fex/Jac text of all four back-ends is a compile-time constant (checked: a non-constant subscript outside the two copy loops is a harness error)",
         "cuSPARSE: the rendered .cu sources are compiled for the host (qualifiers defined away, K<<<g,b,..>>>(..) rewritten to a launcher that runs every thread of the grid in turn, device memory = exactly sized heap blocks, ASan/UBSan) and executed on a batch of 3 systems with a 1 x 2 grid, so the grid-stride loop and the per-system windows are exercised; per system the result must equal the dense back-end's compiled Fex/Jac on the same state (rel 1e-12). Kernels have no intra-block communication, so sequential execution of the threads is faithful",
@@ -330,11 +477,15 @@ def run(ctx):
         "conformance_networks_compiled_with_asan_ubsan": len(sub),
         "cuda_sources_executed_on_host_vs_dense": ncuda,
         "values_where_compiled_code_equals_E4": nconf,
+        "library_matrices_read_back": nlib,
         "exhaustive": True,
     }
 
 
 def replay(ctx, case):
+    if "library_matrix" in case:
+        ctx.absorb(library_matrix_case(case["library_matrix"])[1])
+        return
     case = dict(case)
     case.pop("backend", None)
     executed = case.pop("executed", False)
